@@ -17,7 +17,7 @@ theorem encodeFrames_inv (L : EncLayer) (seq seq' : Nat) (m : MsgIn) (frs : List
       ((L.isFast m.pgn = .fast ∧ B.length ≤ 223 ∧ seq' = (seq + 1) % 8 ∧ frs = Fast.frames seq B) ∨
        (L.isFast m.pgn ≠ .fast ∧ L.isFast m.pgn ≠ .raises ∧ seq' = seq ∧ frs = [B])) := by
   unfold encodeFrames at he
-  by_cases hg : 7 < m.prio ∨ 255 < m.src ∨ 0x3FFFF < m.pgn
+  by_cases hg : 7 < m.prio ∨ 255 < m.src ∨ 0x3FFFF < m.pgn ∨ 255 < m.dst
   · rw [if_pos hg] at he; cases he
   · rw [if_neg hg] at he
     refine ⟨by omega, by omega, by omega, ?_⟩
